@@ -8,10 +8,16 @@ Line protocol of C12.
                                            block) or `-1 <err>`
 * `dataset hdr | F | poolIds | poolNs | listing | filter | regexIds | extraNs | idxs | lists…` → data / vols / items of an
   `H5SliceData` / `FastMRIDataset` / `CalgaryCampinasDataset` built from constructor arguments
-* `cmr ctx mode | ids | as | bs | idxs`       → data / vols / items of a `CMRxReconDataset`
+* `cmr ctx mode rootGiven | poolIds | as | bs | sel | idxs | lists…` → data / vols / items of a `CMRxReconDataset`
+  (`mode` 0: `sel` is the directory listing in OS order, 1: `filenames_filter`, 2: `filenames_lists`)
 * `locate sizes | idx`                  → `ok d j`
-* `fake   coils seed`                   → `ok finalGlobal | blobsSource | offsetSource`
-* `shepp  coils seed zero k`            → `ok finalGlobal | offsetSource | noiseSource`
+* `bisect xs | x`                       → `ok n` (`bisect.bisect_right`, any list)
+* `sliceidx F | n`                      → `ok start stop step | len(range) | list(range)` or `err ValueError`
+* `dedup xs`                            → `ok list(dict.fromkeys(xs))`
+* `fakeidx sampleSize ndim shape0 | given | seeds | idxs` → names / data / vols / items of a `FakeMRIBlobsDataset`
+* `sheppidx nz | idxs`                  → per index `renderedSlice seedIndex reportedSliceNo` or `-1 <err>`
+* `fake   coils seed given | shape`     → `ok finalGlobal | blobsSource + requests | offsetSource`
+* `shepp  coils seed zero | nx ny`      → `ok finalGlobal | offsetSource | noiseSource`
 
 `F` = `0` (no filter) | `2` (truthy non-slice) | `1 hasStart start hasStop stop hasStep step`;
 `ns[i] = -1` marks an unreadable file.
@@ -69,7 +75,9 @@ def encOps (g : List GOp) : List Int :=
     | .seed s => [1, (s : Int)]
     | .uniform => [2]
     | .randn k => [3, (k : Int)]
-    | .blobs => [4]
+    | .uniformN k => [5, (k : Int)]
+    | .normalN k => [6, (k : Int)]
+    | .shuffleN n => [7, (n : Int)]
 
 def encExtra (f : Int) : Entry → Int
   | .slice i => 500000 + 1000 * f + i
@@ -113,32 +121,50 @@ def opDataset (hdr : List Int) (Farg : FilterArg) (poolIds poolNs listing filter
             else main)
   | _ => "err BadOp"
 
-def opCmr (ctxCode mode : Int) (ids0 as0 bs0 idxs : List Int) : String :=
+def opCmr (ctxCode mode rootGiven : Int) (poolIds as0 bs0 selIds idxs : List Int) (lists : List (List Int)) : String :=
   let ctx : CmrContext := if ctxCode = 1 then .slice else if ctxCode = 2 then .time else .none
-  -- mode 0: `ids0` is the directory listing in OS order; mode 1: `filenames_filter`
-  let table := ids0.zip (as0.zip bs0)
+  let table := poolIds.zip (as0.zip bs0)
   let sel : Selection Int :=
-    { listing := ids0, filter := if mode = 0 then none else some ids0, lists := none, listsRootGiven := false,
+    { listing := if mode = 0 then selIds else []
+      filter := if mode = 1 then some selIds else none
+      lists := if mode = 2 then some lists else none
+      listsRootGiven := rootGiven ≠ 0
       hasRegex := false, regexOk := fun _ => true }
-  let ids := match selectFiles cmrListingSortedCurrent dedupCurrent (fun a b => decide (a ≤ b)) sel with
-    | .ok fs => fs
-    | .error _ => []
-  let as := ids.map fun f => ((table.lookup f).getD (-1, -1)).1
-  let bs := ids.map fun f => ((table.lookup f).getD (-1, -1)).2
-  let shapes := ids.zip (as.zip bs)
-  let files : List (Int × Option (Nat × Nat)) :=
-    shapes.map fun (f, a, b) => (f, if a < 0 then none else some (a.toNat, b.toNat))
-  let P := cmrParse ctx files
-  let shapeOf (f : Int) : Nat × Nat :=
-    match shapes.lookup f with
-    | some (a, b) => (a.toNat, b.toNat)
-    | none => (0, 0)
-  okG ([P.data.map (·.1), P.data.map fun x => (x.2 : Int), P.vols.map (·.1),
-        P.vols.map fun x => (x.2.1 : Int), P.vols.map fun x => (x.2.2 : Int)] ++
-    idxs.map fun idx =>
-      match cmrItem P ctx shapeOf idx with
-      | .error e => [-1, errCode e]
-      | .ok (f, s, blk) => f :: (s : Int) :: blk.flatMap fun (k, l) => [(k : Int), (l : Int)])
+  let shapeOpt (f : Int) : Option (Nat × Nat) :=
+    match table.lookup f with
+    | some (a, b) => if a < 0 then none else some (a.toNat, b.toNat)
+    | none => none
+  match buildCmr cmrListingSortedCurrent dedupCurrent (fun a b => decide (a ≤ b)) sel ctx shapeOpt with
+  | .error e => "err " ++ errName e
+  | .ok P =>
+    let shapeOf (f : Int) : Nat × Nat := (shapeOpt f).getD (0, 0)
+    okG ([P.data.map (·.1), P.data.map fun x => (x.2 : Int), P.vols.map (·.1),
+          P.vols.map fun x => (x.2.1 : Int), P.vols.map fun x => (x.2.2 : Int)] ++
+      idxs.map fun idx =>
+        match cmrItem P ctx shapeOf idx with
+        | .error e => [-1, errCode e]
+        | .ok (f, s, blk) => f :: (s : Int) :: blk.flatMap fun (k, l) => [(k : Int), (l : Int)])
+
+def opSliceIdx (F : FilterArg) (n : Int) : String :=
+  match F with
+  | .slice sl =>
+    if sl.step == some 0 then "err ValueError" else
+    let (a, b, st) := sliceIndices sl n
+    okG [[a, b, st], [(rangeLen a b st : Int)], pyRange a b st]
+  | _ => "err BadOp"
+
+def opFakeIdx (sampleSize : Nat) (ndim shape0 : Int) (given : List Int) (seeds : List Int) (idxs : List Int) : String :=
+  match fakeNames given sampleSize (fun b k => b * 100000 + (k : Int)) with
+  | .error e => "err " ++ errName e
+  | .ok names =>
+    let nz := (fakeNumSlices ndim shape0).toNat
+    let P := fakeBuild names (nats seeds) nz
+    okG ([names, P.data.map (·.1), P.data.map fun x => (x.2.1 : Int), P.data.map fun x => (x.2.2 : Int),
+          P.vols.map (·.1), P.vols.map fun x => (x.2.1 : Int), P.vols.map fun x => (x.2.2 : Int)] ++
+      idxs.map fun idx =>
+        match fakeIndex P idx with
+        | .error e => [-1, errCode e]
+        | .ok (f, s, sd) => [f, (s : Int), (sd : Int)])
 
 def step (op : String) (gs : List (List Int)) : String :=
   match op, gs with
@@ -156,20 +182,38 @@ def step (op : String) (gs : List (List Int)) : String :=
       if poolIds.length ≠ poolNs.length ∨ poolIds.length ≠ extraNs.length then "err BadOp"
       else opDataset hdr F poolIds poolNs listing filter regexIds extraNs idxs lists
     | none => "err BadOp"
-  | "cmr", [[ctx, mode], ids, as, bs, idxs] =>
-    if ids.length ≠ as.length ∨ ids.length ≠ bs.length then "err BadOp" else opCmr ctx mode ids as bs idxs
+  | "cmr", [ctx, mode, rootGiven] :: ids :: as :: bs :: sel :: idxs :: lists =>
+    if ids.length ≠ as.length ∨ ids.length ≠ bs.length then "err BadOp" else opCmr ctx mode rootGiven ids as bs sel idxs lists
+  | "bisect", [xs, [x]] =>
+    if xs.any (· < 0) then "err BadOp" else okG [[(bisectRightBin (nats xs) x : Int)]]
+  | "sliceidx", [f, [n]] =>
+    match parseFilter f with
+    | some F => if n < 0 then "err BadOp" else opSliceIdx F n
+    | none => "err BadOp"
+  | "dedup", [xs] => okG [dedupFirst xs]
+  | "fakeidx", [[sampleSize, ndim, shape0], given, seeds, idxs] =>
+    if sampleSize < 0 ∨ shape0 < 0 ∨ seeds.any (· < 0) then "err BadOp"
+    else opFakeIdx sampleSize.toNat ndim shape0 given seeds idxs
+  | "sheppidx", [[nz], idxs] =>
+    if nz < 1 then "err BadOp" else
+    okG (idxs.map fun idx =>
+      match sheppIndex nz.toNat idx with
+      | .error e => [-1, errCode e]
+      | .ok (s, k, r) => [(s : Int), (k : Int), r])
   | "locate", [sizes, [idx]] =>
     if sizes.any (· < 0) then "err BadOp" else
     match concatGet (nats sizes) idx with
     | .ok (d, j) => okG [[(d : Int), (j : Int)]]
     | .error e => "err " ++ errName e
-  | "fake", [[coils, seed]] =>
-    if coils < 1 ∨ seed < 0 then "err BadOp" else
-    let ((b, off), g) := fakeDraws symRng fakeTableCurrent coils.toNat seed.toNat [GOp.init]
+  | "fake", [[coils, seed, given], shape] =>
+    if coils < 1 ∨ seed < 0 ∨ given < 0 ∨ shape.any (· < 1) then "err BadOp" else
+    let a := blobArgs (nats shape) coils.toNat given.toNat
+    let ((b, off), g) := fakeDraws symRng fakeTableCurrent a coils.toNat seed.toNat [GOp.init]
     okG [encOps g, encOps b, encOps (off.getD [])]
-  | "shepp", [[coils, seed, zero, k]] =>
-    if coils < 1 ∨ seed < 0 ∨ k < 0 then "err BadOp" else
-    let ((off, z), g) := sheppDraws symRng sheppTableCurrent coils.toNat seed.toNat (zero ≠ 0) k.toNat [GOp.init]
+  | "shepp", [[coils, seed, zero], [nx, ny]] =>
+    if coils < 1 ∨ seed < 0 ∨ nx < 0 ∨ ny < 0 then "err BadOp" else
+    let k := sheppNoiseCount coils.toNat nx.toNat ny.toNat
+    let ((off, z), g) := sheppDraws symRng sheppTableCurrent coils.toNat seed.toNat (zero ≠ 0) k [GOp.init]
     okG [encOps g, encOps (off.getD []), encOps (z.getD [])]
   | _, _ => "err BadOp"
 
